@@ -221,7 +221,7 @@ pub fn run_line(line: &str) -> String {
 
 const CFGS: &[&str] = &["P:1001", "P:0001", "P:0101", "P:0010", "T:HlslForDirectX", "T:HlslForVulkan", "T:HlslForVulkan+BA", "T:Msl"];
 
-fn gen_decl(rng: &mut Rng, reduced: bool) -> Decl {
+pub fn gen_decl(rng: &mut Rng, reduced: bool) -> Decl {
     let r = rng.below(100);
     let kind = if r < 10 {
         "c".to_string()
